@@ -878,8 +878,12 @@ def cached_fuse_block_info(self, axes_groups):
         res = _fuseinfos[key] = calc_fuse_block_info(self, axes_groups)
         # possibly trim cache
         if len(_fuseinfos) > _fuseinfo_cache_maxsize:
-            # cache is full, remove the oldest entry
-            _fuseinfos.popitem(last=False)
+            # cache is full, remove the oldest entry, n.b. another thread may
+            # have emptied the cache between the length check and here
+            try:
+                _fuseinfos.popitem(last=False)
+            except KeyError:
+                pass
         global _fi_missed
         _fi_missed += 1
 
